@@ -39,6 +39,71 @@ def c02(tier):
     return run.finish("every input sequence over the alphabet up to maxlen, for every listed view and window length; "
                       "non-trivial = states in which the definition fixes the answer (exact value, fixed-point value, None or hold)")
 
+RULE_DEF = ("every input sequence over the alphabet up to maxlen, for every listed view and window length; "
+            "non-trivial = states in which the definition fixes the answer (exact value, fixed-point value, None or hold)")
+
+# ------------------------------------------------------------------------------------------------
+@check("C05")
+def c05(tier):
+    run = Run("C05", tier, "model_checking")
+    kinds = ["Rsi", "MyRSI"]
+    plan = [(1, 5), (2, 6), (3, 7), (4, 8)] if tier == "quick" else [(1, 7), (2, 8), (3, 9), (4, 10), (5, 10), (6, 11)]
+    for alpha in ([0, 1, 3], [-2, 0, 2]):
+        for n, L in plan:
+            p1_job(run, "rsi-n%d-a%d" % (n, alpha[0]), "MC_Def", {"prop": "C05", "cfgs": cfgs(kinds, [n]), "alphabet": alpha, "unit": 1, "maxlen": L})
+    return run.finish(RULE_DEF)
+
+@check("C06")
+def c06(tier):
+    run = Run("C06", tier, "model_checking")
+    kinds = ["CorrelationTrendIndicator", "NoiseEliminationTechnology", "CenterOfGravity"]
+    if tier == "quick":
+        plan = [(3, 6, [0, 1, 2, 3]), (4, 7, [0, 1, 3]), (5, 8, [0, 1, 3]), (3, 6, [-2, 0, 1])]
+    else:
+        plan = [(3, 7, [0, 1, 2, 3]), (4, 8, [0, 1, 2, 3]), (5, 9, [0, 1, 3]), (6, 10, [0, 1, 3]), (7, 10, [0, 1, 3]),
+                (3, 7, [-2, 0, 1, 2]), (4, 8, [-2, 0, 1]), (8, 11, [0, 2])]
+    for n, L, alpha in plan:
+        p1_job(run, "trend-n%d-a%d" % (n, alpha[0]), "MC_Def", {"prop": "C06", "cfgs": cfgs(kinds, [n]), "alphabet": alpha, "unit": 1, "maxlen": L})
+    return run.finish(RULE_DEF)
+
+@check("C13")
+def c13(tier):
+    run = Run("C13", tier, "model_checking")
+    cf = [{"k": "WelfordRolling"}, {"k": "Drawdown"}, {"k": "LnReturn"}]
+    L = 7 if tier == "quick" else 9
+    p1_job(run, "roll-int", "MC_Def", {"prop": "C13", "cfgs": cf, "alphabet": [1, 2, 4, 7], "unit": 1, "maxlen": L, "extras": True})
+    p1_job(run, "roll-dec", "MC_Def", {"prop": "C13", "cfgs": cf, "alphabet": [5, 12, 20, 31], "unit": 10, "maxlen": L - 1, "extras": True,
+                                      "eps": [1, 1000000]})
+    return run.finish(RULE_DEF)
+
+E = {"k": "Echo"}
+def ema(n): return {"k": "Ema", "n": n}
+def sma(n): return {"k": "Sma", "n": n}
+
+@check("C11")
+def c11(tier):
+    run = Run("C11", tier, "model_checking")
+    def views(n):
+        v = [{"k": "SuperSmoother", "n": n}, {"k": "LaguerreRSI", "n": n}, {"k": "CyberCycle", "n": n},
+             {"k": "RoofingFilter", "n": n, "m": 2}, {"k": "RoofingFilter", "n": n, "m": 3},
+             {"k": "EhlersFisherTransform", "n": n, "c": [E, ema(2)]}, {"k": "EhlersFisherTransform", "n": n, "c": [E, sma(2)]},
+             {"k": "EhlersFisherTransform", "n": n, "c": [E, E]}]
+        if n >= 3:
+            v += [{"k": "TrendFlex", "n": n}, {"k": "ReFlex", "n": n},
+                  {"k": "PolarizedFractalEfficiency", "n": n, "c": [E, ema(3)]}, {"k": "PolarizedFractalEfficiency", "n": n, "c": [E, sma(2)]},
+                  {"k": "PolarizedFractalEfficiency", "n": n, "c": [E, E]}]
+        return v
+    lag = [{"k": "LaguerreFilter", "g": g} for g in ([0, 1], [1, 2], [3, 4], [1, 5])]
+    if tier == "quick":
+        plan = [(1, 5, [0, 1, 3]), (2, 6, [0, 1, 3]), (3, 7, [0, 1, 3]), (4, 7, [1, 2, 4]), (5, 9, [0, 3]), (8, 11, [1, 4])]
+    else:
+        plan = [(1, 7, [0, 1, 3]), (2, 8, [0, 1, 3]), (3, 9, [0, 1, 3]), (4, 9, [0, 1, 3]), (5, 10, [1, 2, 4]), (6, 10, [0, 1, 3]),
+                (7, 12, [0, 3]), (8, 13, [1, 4]), (10, 14, [0, 3]), (12, 15, [1, 4]), (16, 18, [0, 3]), (20, 18, [1, 4])]
+    for n, L, alpha in plan:
+        p1_job(run, "ehlers-n%d" % n, "MC_Def", {"prop": "C11", "cfgs": views(n), "alphabet": alpha, "unit": 1, "maxlen": L})
+    p1_job(run, "laguerre", "MC_Def", {"prop": "C11", "cfgs": lag, "alphabet": [-2, 0, 1, 3], "unit": 1, "maxlen": 6 if tier == "quick" else 8})
+    return run.finish(RULE_DEF)
+
 # ------------------------------------------------------------------------------------------------
 def setup():
     sfv.ensure_java()
@@ -66,8 +131,8 @@ def replay(path):
     if obj.get("kind") == "p1":
         alpha = sorted(set(obj["inputs"])) or [0]
         # keep the alphabet at least two symbols wide so that the index arithmetic is exercised
-        scope = {"cfgs": [obj["cfg"]], "alphabet": alpha, "unit": obj.get("unit", 1), "maxlen": len(obj["inputs"]),
-                 "extras": obj.get("extras", False), "taps": obj.get("taps", False), "float": obj.get("float", "f64")}
+        scope = dict(obj.get("scope_rest", {}))
+        scope.update({"cfgs": [obj["cfg"]], "alphabet": alpha, "maxlen": len(obj["inputs"])})
         run = Run("replay", "quick", "model_checking")
         run.prop = obj["property"]
         run.known = []
